@@ -7,6 +7,7 @@ import (
 	"encoding/json"
 	"fmt"
 	"log/slog"
+	"os"
 	"sort"
 	"strings"
 	"testing"
@@ -173,7 +174,17 @@ func StrategyFor(runSeed uint64) Strategy {
 }
 
 // RunOne executes one simulated run in a fresh bubble.
+// crumbPath: when set, the input of every run is written there before the run starts, so that the driver can
+// tell which run killed the process when library code dies of a fatal error (out of memory, stack overflow) that
+// no recover() can catch.
+var crumbPath = os.Getenv("KMIPVERIF_CRUMB")
+
 func RunOne(t *testing.T, p *Prop, in RunInput) (out RunOutput) {
+	if crumbPath != "" {
+		if b, err := json.Marshal(ReplayFile{Property: p.ID, Input: in}); err == nil {
+			_ = os.WriteFile(crumbPath, b, 0o644)
+		}
+	}
 	var sc any
 	var gen *simrt.Tape
 	if in.FromGen || in.Scenario == nil {
